@@ -324,6 +324,50 @@ def model_free_classes(sx, model):
     return out
 
 
+def depends_on_uf(e, cache):
+    """does the expression mention an uninterpreted hash application? (memoised post-order over the DAG)"""
+    root = e.get_id()
+    if root in cache:
+        return cache[root]
+    stack = [(e, False)]
+    while stack:
+        x, done = stack.pop()
+        i = x.get_id()
+        if i in cache:
+            continue
+        if z3.is_app(x) and x.num_args() == 12 and x.decl().name().startswith("P"):
+            cache[i] = True
+            continue
+        ch = x.children()
+        if done:
+            cache[i] = any(cache.get(c.get_id(), False) for c in ch)
+        else:
+            stack.append((x, True))
+            for c in ch:
+                if c.get_id() not in cache:
+                    stack.append((c, False))
+    return cache[root]
+
+
+def model_all_classes(sx, model):
+    """Value of every wire class the model determines without going through the uninterpreted hash
+    (those are left to the real generators), including the limbs hidden in collapsed range variables."""
+    out = {}
+    cache = {}
+    for c, t in sx.terms.items():
+        if c in sx.collapsed:
+            continue
+        e = t.as_int()
+        if depends_on_uf(e, cache):
+            continue
+        out[str(c)] = int(str(model.eval(e, model_completion=True))) % P
+    for name, (var, limbs) in sx.rng_limbs.items():
+        v = int(str(model.eval(var, model_completion=True)))
+        for i, c in enumerate(limbs):
+            out[str(c)] = (v >> i) & 1
+    return out
+
+
 # ----------------------------------------------------------------------------- evidence
 def write_evidence(pid, tier, t0, sessions, functions, bounds, assumptions, extra=None,
                    traces_validated=0, violations=0, known=None):
